@@ -9,6 +9,7 @@ import (
 	"regexp"
 	"runtime/debug"
 	"strings"
+	"sync"
 	"time"
 
 	"github.com/gofiber/fiber/v2"
@@ -117,7 +118,18 @@ func StartInProc(c Config) (*InProc, error) {
 		ms = sc
 		opts.SideCarDir = c.SB.Sidecar
 	}
+	// posix.New makes the storage root the working directory of the process and the backend works with paths
+	// relative to it: engines on different sandboxes take turns (enterRoot) instead of sharing the last one's root
+	cwdMu.Lock()
+	for cwdUsers > 0 {
+		cwdCond.Wait()
+	}
 	be, err := posix.New(c.SB.Root, ms, opts)
+	cwdRoot = ""
+	if err == nil {
+		cwdRoot = c.SB.Root
+	}
+	cwdMu.Unlock()
 	if err != nil {
 		return nil, err
 	}
@@ -153,6 +165,38 @@ func StartInProc(c Config) (*InProc, error) {
 	}
 	app.Handler() // start-up (builds the route stack)
 	return &InProc{App: app, BE: be, IAM: iam, Cfg: c}, nil
+}
+
+var (
+	cwdMu    sync.Mutex
+	cwdCond  = sync.NewCond(&cwdMu)
+	cwdRoot  string // the storage root that is the working directory right now
+	cwdUsers int    // requests being served relative to it
+)
+
+// enterRoot makes root the working directory for the duration of one request. Requests to engines on the same
+// root run side by side (and nest); a request to an engine on another root waits until those have returned.
+func enterRoot(root string) error {
+	cwdMu.Lock()
+	defer cwdMu.Unlock()
+	for cwdRoot != root && cwdUsers > 0 {
+		cwdCond.Wait()
+	}
+	if cwdRoot != root {
+		if err := os.Chdir(root); err != nil {
+			return err
+		}
+		cwdRoot = root
+	}
+	cwdUsers++
+	return nil
+}
+
+func leaveRoot() {
+	cwdMu.Lock()
+	cwdUsers--
+	cwdMu.Unlock()
+	cwdCond.Broadcast()
 }
 
 func (g *InProc) Shutdown() {
@@ -235,6 +279,10 @@ func (g *InProc) RoundTripDuring(head, body []byte, fragments []int, at int, dur
 			c.in = append(c.in, rest)
 		}
 	}
+	if err := enterRoot(g.Cfg.SB.Root); err != nil {
+		return nil, fmt.Errorf("chdir to the storage root: %v", err)
+	}
+	defer leaveRoot()
 	defer func() {
 		if r := recover(); r != nil {
 			st := string(debug.Stack())
